@@ -163,20 +163,134 @@ def main_done(ctx, r):
     r.ob(ok, "vm.rs:finish_thread_turn:completion-condition", VM, f["l"], f"finish_thread_turn must return true exactly for `thread.is_main && thread.done` (returns true under {conds})", sample=f"finish_thread_turn: true iff {conds}")
     saved = any(x["k"] == "Assign" and q.show(x["a"]) == "self.finished_main_thread" for x in q.walk(f["body"]))
     r.ob(saved, "vm.rs:finish_thread_turn:main-thread-dropped", VM, f["l"], "the finished main thread must be kept (its stack top is the program's result)")
-    # callers propagate
+    # callers propagate: they return at once, and where their result carries a completion flag it is `true`
     n = 0
     for name in ("run_threads_round_robin", "drain_new_threads"):
         g = rt_fn(ctx, r, name)
         if g is None:
             continue
+        has_flag = "bool" in (g.get("ret") or "")
         for x in q.walk(g["body"]):
             if x["k"] == "If" and "finish_thread_turn" in q.show(x["c"]):
                 n += 1
-                rets = [q.show(y["e"]) for y in q.walk(x["t"]) if y["k"] == "Return" and y.get("e") is not None]
-                r.ob(bool(rets) and all(t.startswith("true") or t.startswith("(true") for t in rets), f"vm.rs:{name}:completion-not-propagated", VM, x["l"], f"{name} must report completion as soon as finish_thread_turn returns true (returns {rets})", sample=f"{name}: propagates completion")
+                rets = [q.show(y["e"]) if y.get("e") is not None else "" for y in q.walk(x["t"]) if y["k"] == "Return"]
+                ok = bool(rets) and (not has_flag or all(t.startswith("true") or t.startswith("(true") for t in rets))
+                r.ob(ok, f"vm.rs:{name}:completion-not-propagated", VM, x["l"], f"{name} must stop and report completion as soon as finish_thread_turn returns true (returns {rets})", sample=f"{name}: propagates completion")
     r.count("callers of finish_thread_turn", n, 2, VM)
     h = rt_fn(ctx, r, "run_n_steps")
-    if h is not None:
-        ifs = [x for x in q.walk(h["body"]) if x["k"] == "If" and q.show(x["c"]) == "main_thread_done"]
-        ok = bool(ifs) and any(y["k"] == "Path" and y["p"] == "RuntimeStatusKind::Done" for y in q.walk(ifs[0]["t"]))
-        r.ob(ok, "vm.rs:Runtime::run_n_steps:done-status", VM, h["l"], "run_n_steps must report Done when the scheduler reports main-thread completion", sample="run_n_steps: main_thread_done -> Done")
+    g = rt_fn(ctx, r, "run_threads_round_robin")
+    if h is not None and g is not None:
+        ret = (g.get("ret") or "").replace(" ", "")
+        if "bool" in ret:
+            # the flag's position in the scheduler's result, and the variable run_n_steps binds to it
+            parts = ret.strip("()").split(",")
+            idx = parts.index("bool") if "bool" in parts else 0
+            flag = None
+            for x in q.walk(h["body"]):
+                if x["k"] == "Local" and x.get("init") is not None and "run_threads_round_robin" in q.show(x["init"]):
+                    b = q.pat_bindings(x["pat"])
+                    flag = b[idx] if idx < len(b) else None
+            ifs = [x for x in q.walk(h["body"]) if x["k"] == "If" and flag is not None and q.show(x["c"]).strip("()") == flag]
+            ok = bool(ifs) and any(y["k"] == "Path" and y["p"] == "RuntimeStatusKind::Done" for y in q.walk(ifs[0]["t"])) and any(y["k"] == "Return" for y in q.walk(ifs[0]["t"]))
+            r.ob(ok, "vm.rs:Runtime::run_n_steps:done-status", VM, h["l"], f"run_n_steps must report Done when the scheduler's completion flag (`{flag}`) is set", sample=f"run_n_steps: {flag} -> Done")
+        else:
+            # no flag: the status must come from update_status_helper alone, whose first test is the main thread (STATUS-MAP)
+            kinds = [q.show(fl["e"]) for x in q.walk(h["body"]) if x["k"] == "Struct" and "RuntimeStatus" in str(x.get("p")) for fl in x.get("fields", []) if fl.get("name") == "kind"]
+            ok = bool(kinds) and all("update_status_helper" in k for k in kinds)
+            r.ob(ok, "vm.rs:Runtime::run_n_steps:done-status", VM, h["l"], f"run_n_steps must derive its status from the main thread first (status expressions: {kinds})", sample="run_n_steps: status from update_status_helper")
+
+
+def _mutators(items, ty="Runtime"):
+    """Methods of the runtime that change which threads are queued (transitively): they touch run_queue with a mutating method or receive from new_threads."""
+    fns = {f["name"]: f for impl in q.find_impls(items, self_ty=ty) for f in impl["items"] if f["k"] == "Fn" and f.get("body") is not None}
+    direct = set()
+    for n, f in fns.items():
+        for x in q.walk(f["body"]):
+            if x["k"] == "MethodCall":
+                recv = q.show(x["recv"]).replace(" ", "")
+                if (recv.endswith("self.run_queue") and x["m"] in ("push_back", "push_front", "pop_front", "pop_back", "insert", "remove", "retain", "clear", "rotate_left", "rotate_right", "swap", "drain", "append", "extend", "truncate")) or (
+                    recv.endswith("self.new_threads") and x["m"] in ("try_recv", "recv", "try_iter", "iter", "recv_timeout")
+                ):
+                    direct.add(n)
+    changed = True
+    while changed:
+        changed = False
+        for n, f in fns.items():
+            if n in direct:
+                continue
+            if any(x["k"] == "MethodCall" and q.show(x["recv"]) == "self" and x["m"] in direct for x in q.walk(f["body"])):
+                direct.add(n)
+                changed = True
+    return direct, fns
+
+
+@rule("SLICE-INVARIANT", ["C10"], "what the scheduler does between two instructions does not depend on whether a budget boundary falls there: queue maintenance happens after every turn, never only at slice entry or exit")
+def slice_invariant(ctx, r):
+    items = ctx.file_items(VM)
+    f = rt_fn(ctx, r, "run_threads_round_robin")
+    if f is None or items is None:
+        return
+    muts, fns = _mutators(items)
+    r.count("runtime methods that change the set of queued threads", len(muts), 3, VM)
+    stmts = f["body"]["stmts"]
+    li = next((i for i, s in enumerate(stmts) if any(x["k"] == "While" for x in q.walk(s)) and any(x["k"] == "MethodCall" and x["m"] == "run_n_steps" for x in q.walk(s))), None)
+    if li is None:
+        r.missing("run_threads_round_robin:stepping loop", VM)
+        return
+    loop = next(x for x in q.walk(stmts[li]) if x["k"] == "While")
+
+    def mut_calls(nodes):
+        out = []
+        for n in nodes:
+            for x in q.walk(n):
+                if x["k"] == "MethodCall" and q.show(x["recv"]) == "self" and x["m"] in muts:
+                    out.append(x)
+                elif x["k"] == "MethodCall" and q.show(x["recv"]).replace(" ", "").endswith("self.run_queue") and x["m"] in ("push_back", "push_front", "pop_front", "pop_back", "clear", "retain", "remove", "insert"):
+                    out.append(x)
+        return out
+
+    pre = mut_calls(stmts[:li])
+    post = mut_calls(stmts[li + 1:])
+    body_stmts = loop["body"]["stmts"]
+    # index of the statement that steps the thread
+    si = next((i for i, s in enumerate(body_stmts) if any(x["k"] == "MethodCall" and x["m"] == "run_n_steps" for x in q.walk(s))), None)
+    if si is None:
+        r.missing("run_threads_round_robin:step statement", VM)
+        return
+    # top-level statements after the step: `if self.m(..) { return .. }`, `self.m(..);` count as unconditional calls of m
+    uncond = set()
+    for s in body_stmts[si + 1:]:
+        e = s.get("e") if s["k"] == "ExprStmt" else None
+        if e is None:
+            continue
+        if e["k"] == "If":
+            for x in q.walk(e["c"]):
+                if x["k"] == "MethodCall" and q.show(x["recv"]) == "self":
+                    uncond.add(x["m"])
+        elif e["k"] == "MethodCall" and q.show(e["recv"]) == "self":
+            uncond.add(e["m"])
+    for x in post:
+        r.find(f"vm.rs:run_threads_round_robin:{x['m']}:queue-changed-at-slice-exit", VM, x["l"],
+               f"`{x['m']}` changes the set of queued threads after the stepping loop, i.e. only when a budget is exhausted: where a spawned or returning thread joins the queue then depends on the embedder's step budget")
+    for x in pre:
+        name = x["m"]
+        r.ob(name in uncond, f"vm.rs:run_threads_round_robin:{name}:only-at-slice-entry", VM, x["l"],
+             f"`{name}` runs at slice entry but not after every turn of the stepping loop: a thread spawned in the middle of a slice would join the queue at the next budget boundary, so the interleaving depends on the budget",
+             sample=f"scheduler: {name} at entry and after every turn")
+    r.ob(not post, "vm.rs:run_threads_round_robin:slice-exit-is-pure", VM, f["l"], "no queue maintenance after the stepping loop", sample="scheduler: nothing but the result after the loop")
+    # every turn puts the thread back (or retires it) through one routine, unconditionally
+    r.ob("finish_thread_turn" in uncond or any(m in uncond for m in muts - {"drain_new_threads"}), "vm.rs:run_threads_round_robin:thread-not-returned-every-turn", VM, loop["l"],
+         "the popped thread must be handed back to the queue (or retired) after every turn, whether or not it ran", sample="scheduler: finish_thread_turn after every turn")
+    # loop-carried locals other than the accounting pair must be reset-free across slices: skipped counter only gates termination
+    carried = [q.pat_bindings(s["pat"])[0] for s in stmts[:li] if s["k"] == "Local" and s.get("pat") and q.pat_bindings(s["pat"])]
+    used_in_cond = [v for v in carried if v in q.show(loop["c"])]
+    order_uses = []
+    for v in carried:
+        if v in ("remaining_steps", "steps_run"):
+            continue
+        for x in q.walk(loop["body"]):
+            if x["k"] in ("If", "Match") and v in q.show(x.get("c") or x.get("e") or {"k": "Lit", "v": ""}):
+                order_uses.append(v)
+    r.ob(not order_uses, "vm.rs:run_threads_round_robin:per-slice-state-steers-scheduling", VM, loop["l"],
+         f"per-slice local state {order_uses} steers which thread runs: it is reset at every budget boundary, so scheduling would depend on the budget (it may only bound the loop: {used_in_cond})",
+         sample=f"scheduler: per-slice locals {used_in_cond} only bound the loop")
